@@ -186,12 +186,14 @@ def gen_gradient(rng, gid, bbox):
             gt = f' gradientTransform="translate({_fmt(ccx)} {_fmt(ccy)}) scale(-1 1) translate({_fmt(-ccx)} {_fmt(-ccy)})"'
         else:
             gt = f' gradientTransform="matrix({rng.choice([0.75, 1, 1.25])} {rng.choice([0, 0.25])} {rng.choice([0, -0.25, 0.5])} {rng.choice([0.75, 1])} 0 0)"'
+    # objectBoundingBox is the default: half of the time the attribute is simply not written
+    units_attr = f' gradientUnits="{units}"' if (units != "objectBoundingBox" or rng.random() < 0.5) else ""
     if rng.random() < 0.5:
         if units == "objectBoundingBox":
             c = [rng.choice([0, 0.25]), rng.choice([0, 0.25, 0.5]), rng.choice([0.75, 1]), rng.choice([0.5, 0.75, 1])]
         else:
             c = [x + w * rng.choice([0, 0.25]), y + h * rng.choice([0, 0.5]), x + w * rng.choice([0.75, 1]), y + h * rng.choice([0.5, 1])]
-        xml = (f'<linearGradient id="{gid}" gradientUnits="{units}" spreadMethod="{spread}"{gt} '
+        xml = (f'<linearGradient id="{gid}"{units_attr} spreadMethod="{spread}"{gt} '
                f'x1="{_fmt(c[0])}" y1="{_fmt(c[1])}" x2="{_fmt(c[2])}" y2="{_fmt(c[3])}">' + "".join(stops) + "</linearGradient>")
     else:
         if units == "objectBoundingBox":
@@ -206,7 +208,7 @@ def gen_gradient(rng, gid, bbox):
             focal = f' fx="{_fmt(fx)}" fy="{_fmt(fy)}"'
             if rng.random() < 0.4:
                 focal += f' fr="{_fmt(rr * 0.125)}"'
-        xml = (f'<radialGradient id="{gid}" gradientUnits="{units}" spreadMethod="{spread}"{gt} '
+        xml = (f'<radialGradient id="{gid}"{units_attr} spreadMethod="{spread}"{gt} '
                f'cx="{_fmt(cx)}" cy="{_fmt(cy)}" r="{_fmt(rr)}"{focal}>' + "".join(stops) + "</radialGradient>")
     return xml
 
@@ -268,6 +270,7 @@ def gen_svg_set(rng, n_glyphs=None, gradients=True, groups=True, special_colors=
                 library.append(shape)
             items.append(shape)
         gcount = 0
+        glyph_grads = []
 
         def emit(shape):
             nonlocal gcount
@@ -281,12 +284,17 @@ def gen_svg_set(rng, n_glyphs=None, gradients=True, groups=True, special_colors=
                 import re as _re
                 defs.append(_re.sub(r'id="[^"]+"', f'id="{gid}"', src_grad, count=1))
                 fill = f"url(#{gid})"
+            elif not solid_only and gradients and glyph_grads and rng.random() < 0.2:
+                # a SECOND shape of this glyph pointing at a gradient another shape already uses (one definition, several bounding boxes)
+                fill = f"url(#{rng.choice(glyph_grads)})"
             elif not solid_only and gradients and rng.random() < 0.4:
                 gid = f"g{gi}_{gcount}"
                 gcount += 1
                 xml = gen_gradient(rng, gid, cmds_bbox(shape["cmds"]))
                 shape["grad_xml"] = xml
                 defs.append(xml)
+                if "userSpaceOnUse" not in xml:
+                    glyph_grads.append(gid)
                 fill = f"url(#{gid})"
             else:
                 fill = gen_color(rng, allow_special=special_colors and not solid_only, palette_indices=palette_indices)
@@ -543,6 +551,74 @@ def make_use_override_case(seed, fmt="picosvg"):
     cfg = {"color_format": fmt, "upem": 1024, "ascender": 950, "descender": -250, "width": 1275, "reuse_tolerance": 0.1, "keep_glyph_names": True}
     return {"id": f"use-override:{fmt}:{seed}", "seed": seed, "fmt": fmt, "svgs": svgs, "config": cfg, "codepoints": [[0xE000], [0xE001]],
             "family": "use-override"}
+
+
+def make_shared_bbox_gradient_case(seed, fmt="glyf_colr_1"):
+    """ONE gradient definition in bounding-box units (the default: the attribute is mostly left out) referenced by several shapes of one glyph whose
+    bounding boxes differ in position and size: each shape must get the gradient stretched over ITS OWN box"""
+    import random
+
+    r = random.Random(seed)
+    attr = r.choice(["", "", ' gradientUnits="objectBoundingBox"'])
+    if r.random() < 0.5:
+        grad = (f'<linearGradient id="g"{attr} x1="0" y1="0" x2="1" y2="{r.choice([0, 1])}"><stop offset="0" stop-color="#ff0000"/>'
+                '<stop offset="1" stop-color="#0000ff"/></linearGradient>')
+    else:
+        grad = (f'<radialGradient id="g"{attr} cx="0.5" cy="0.5" r="0.5"><stop offset="0" stop-color="#ffcc00"/><stop offset="1" stop-color="#00aa00"/></radialGradient>')
+    boxes = [(5, 5, 30, 30), (50, 10, 45, 20), (10, 55, 20, 40), (45, 50, 50, 45)]
+    r.shuffle(boxes)
+    n = r.choice([2, 3, 4])
+    op = r.choice(["", "", ' opacity="0.5"'])
+    paths = "".join(f'<path d="M{x},{y} L{x + w},{y} L{x + w},{y + h} L{x},{y + h} Z" fill="url(#g)"{op}/>' for x, y, w, h in boxes[:n])
+    svg = f'<svg xmlns="http://www.w3.org/2000/svg" viewBox="0 0 100 100"><defs>{grad}</defs>{paths}</svg>'
+    cfg = {"color_format": fmt, "upem": 1024, "ascender": 950, "descender": -250, "width": 1275, "reuse_tolerance": r.choice([0.1, -1]), "keep_glyph_names": True}
+    return {"id": f"shared-bbox-gradient:{fmt}:{seed}", "seed": seed, "fmt": fmt, "svgs": [svg], "config": cfg, "codepoints": [[0xE000]],
+            "family": "shared-bbox-gradient"}
+
+
+def make_group_copies_case(seed, fmt="glyf_colr_1"):
+    """inside ONE translucent group: a shape and several affine copies of it with the SAME fill (so, after reuse, the group holds the same outline
+    glyph with the same paint several times under different transforms), the later copies reaching beyond the first one's extent"""
+    import random
+
+    r = random.Random(seed)
+    fill = r.choice(["#CC0000", "#0044CC", "#222222"])
+    base = [(10, 60), (40, 60), (40, 85), (22, 92)]
+    def d(pts):
+        return "M" + " L".join(f"{_fmt(x)},{_fmt(y)}" for x, y in pts) + " Z"
+    copies = [base,
+              [(x + r.choice([45, 50]), y - r.choice([40, 50])) for x, y in base],                      # far up and to the right
+              [(2 * x + 5, 2 * y - 95 - 0) for x, y in base] if r.random() < 0.5 else [(x + 20, y - 20) for x, y in base]]
+    copies = [c for c in copies if all(-20 <= x <= 120 and -20 <= y <= 120 for x, y in c)]
+    body = f'<g opacity="{r.choice([0.5, 0.75])}">' + "".join(f'<path d="{d(c)}" fill="{fill}"/>' for c in copies) + "</g>"
+    svg = f'<svg xmlns="http://www.w3.org/2000/svg" viewBox="0 0 100 100">{body}</svg>'
+    cfg = {"color_format": fmt, "upem": 1000, "ascender": 1000, "descender": 0, "width": 1000, "reuse_tolerance": 0.1, "keep_glyph_names": True,
+           "clipbox_quantization": r.choice([None, 1, 7]), "clip_to_viewbox": False}
+    return {"id": f"group-copies:{fmt}:{seed}", "seed": seed, "fmt": fmt, "svgs": [svg], "config": cfg, "codepoints": [[0xE000]], "family": "group-copies"}
+
+
+def make_unsorted_names_case(seed, fmt="picosvg", share=False):
+    """glyphs whose input order is not the order of their glyph names (u1F600, u263A, B …) and which share NO outline (every reuse group is a single
+    glyph), or (share=True) where only the first and last share one"""
+    import random
+
+    r = random.Random(seed)
+    cps = [[0x1F600], [0x263A], [0x42], [0x1F601, 0x200D, 0x2764], [0x2764]]
+    r.shuffle(cps)
+    cps = cps[:r.choice([3, 4, 5])]
+    polys = ["M10,10 L60,14 L48,70 Z", "M20,20 L80,20 L80,50 L50,80 L20,50 Z", "M15,30 L45,10 L85,35 L70,85 L25,75 Z", "M30,10 L70,10 L90,50 L70,90 L30,90 L10,50 Z",
+             "M12,12 L88,18 L80,40 L20,44 Z"]
+    r.shuffle(polys)
+    cols = ["#CC0000", "#00AA00", "#0044CC", "#FFCC00", "#7F3FBF"]
+    svgs = []
+    for i in range(len(cps)):
+        body = f'<path d="{polys[i]}" fill="{cols[i]}"/>'
+        if share and i in (0, len(cps) - 1):
+            dx = 0 if i == 0 else 6
+            body += f'<path d="M{70 + dx},70 L{90 + dx},70 L{90 + dx},92 L{70 + dx},92 Z" fill="#222222"/>'
+        svgs.append(f'<svg xmlns="http://www.w3.org/2000/svg" viewBox="0 0 100 100">{body}</svg>')
+    cfg = {"color_format": fmt, "upem": 1000, "ascender": 1000, "descender": 0, "width": 1000, "reuse_tolerance": 0.1, "keep_glyph_names": True}
+    return {"id": f"unsorted-names:{fmt}:{int(share)}:{seed}", "seed": seed, "fmt": fmt, "svgs": svgs, "config": cfg, "codepoints": cps, "family": "unsorted-names"}
 
 
 def make_shared_gradient_case(seed, fmt="picosvg"):
